@@ -51,6 +51,10 @@ pub const CSI: Sym = Sym::Lit("CSI", "\x1b[1m");
 pub const CSI2: Sym = Sym::Lit("CSI2", "\x1b[38;5;9m");
 /// CSI whose final byte is not a letter (a key code such as Delete)
 pub const CSIT: Sym = Sym::Lit("CSIT", "\x1b[3~");
+/// a long but ordinary SGR sequence (24-bit foreground and background: 34 parameter bytes)
+pub const CSIL: Sym = Sym::Lit("CSIL", "\x1b[38;2;255;255;255;48;2;255;255;255m");
+/// SGR with colon sub-parameters
+pub const CSIC: Sym = Sym::Lit("CSIC", "\x1b[4:3m");
 pub const OSB: Sym = Sym::Lit("OSB", "\x1b]8;;u\x07");
 pub const OSS: Sym = Sym::Lit("OSS", "\x1b]8;;u\x1b\\");
 /// OSC hyperlink whose URL contains two hyphens between alphanumerics (realistic: "https://my-site.org")
